@@ -140,6 +140,12 @@ def history_scripts(tier, seed):
                     lines.append("pick %d" % rng.below(1 << 40))
                 # else: search the same position again (shallower or deeper)
         blocks.append(lines)
+    # special moves played into the record (promotion captures on the corners, en passant), then searched
+    for j, (root, moves) in enumerate(positions.SCRIPTED):
+        lines = ["# p%d" % j, "cleartable", "new " + root, "obs"]
+        for m in moves:
+            lines += ["hist " + m, "obs", "search %d -1 0" % (1 + rng.below(4)), "obs", "search %d -1 0" % (1 + rng.below(3))]
+        blocks.append(lines)
     # the position a search has just mated or stalemated in, asked about shallowly with the table kept
     for j, f in enumerate(MATE_ROOTS if tier == "thorough" else MATE_ROOTS[:7]):
         for d in (3, 4):
@@ -159,27 +165,83 @@ def run_history(chk):
 def history_oracles(blocks, impl, key, want_pv):
     """the oracle of C06 (announced move legal / none iff dead) and of C18 (every pv line playable)"""
     searches = []      # (gid, fen, search dict)
+    lines_of = {}      # index into `searches` -> (root fen, moves played from it), for the rules' own line of play
     for blk in blocks:
         gid = blk[0][2:]
         fen = None
-        for ev in parse_search_blocks(impl.get(gid, [])):
-            if ev["kind"] == "obs":
+        root = None
+        moves = []
+        for ln in impl.get(gid, []):
+            if ln.startswith("new "):
+                root = None
+                moves = []
+            elif ln.startswith("pick ") or ln.startswith("playbest "):
+                mv = ln.split(" ")[1]
+                if mv not in ("none", "illegal"):
+                    moves.append(mv)
+                elif mv == "illegal":
+                    moves.append(ln.split(" ")[2])
+        # second pass with the parsed events (obs gives the position, in particular the root right after `new`)
+        root = None
+        moves = []
+        raw = impl.get(gid, [])
+        k = 0
+        evs = parse_search_blocks(raw)
+        for ln in raw:
+            pass
+        pending_root = False
+        for ev in evs:
+            if ev["kind"] == "other" and ev["raw"].startswith("new "):
+                pending_root = True
+                moves = []
+                root = None
+            elif ev["kind"] == "other" and ev["raw"].startswith("hist ok "):
+                moves.append(ev["raw"].split(" ")[2])
+                pending_root = False
+            elif ev["kind"] == "other" and (ev["raw"].startswith("pick ") or ev["raw"].startswith("playbest ")):
+                parts = ev["raw"].split(" ")
+                if parts[1] == "illegal":
+                    moves.append(parts[2] + "!")          # the engine wanted to play a move its own list refuses
+                elif parts[1] != "none":
+                    moves.append(parts[1])
+                pending_root = False
+            elif ev["kind"] == "obs":
                 fen = fen_of_obs(ev["kv"])
+                if pending_root:
+                    root = fen
+                    pending_root = False
             elif ev["kind"] == "search":
+                lines_of[len(searches)] = (root, list(moves))
                 searches.append((gid, fen, ev))
     spec = spec_positions([f for (_, f, _) in searches if f], key)
+    # the legal moves of the position the RULES reach from the root of each search's game
+    play_items = sorted(set((r, " ".join(m)) for (r, m) in lines_of.values() if r and not any(x.endswith("!") for x in m)))
+    pblocks = [["# y%d" % i, "speclast %s | %s" % (mv, r)] for i, (r, mv) in enumerate(play_items)]
+    praw = cached_run("spec-play", SPECDRIVER, pblocks, key) if pblocks else {}
+    rules_legal = {}
+    for i, (r, mv) in enumerate(play_items):
+        ls = [l for l in praw.get("y%d" % i, []) if l.startswith("specply ")]
+        if len(ls) == 1 and "illegal=" not in ls[-1]:
+            kv = parse_kv(ls[-1])[1]
+            if kv.get("sane") == "1":
+                rules_legal[(r, mv)] = [x for x in kv.get("legal", "").split(",") if x]
     fails = []
     stats = {"searches": len(searches), "dead_roots": 0, "table_reuse": 0, "pv_lines": 0, "pv_moves": 0, "single_reply": 0}
     seen_pos = {}
     items = []
     where = []
     nontrivial = set()
-    for gid, fen, ev in searches:
+    for si, (gid, fen, ev) in enumerate(searches):
         if fen is None:
             continue
         legal = legal_of(spec, fen)
         if legal is None:
             continue
+        r, mvs = lines_of.get(si, (None, []))
+        rl = rules_legal.get((r, " ".join(mvs))) if r else None
+        if rl is not None and sorted(rl) != sorted(legal) and ev["best"] != "none" and ev["best"] not in rl:
+            fails.append(("C06", "the announced move %s is not legal in the position the rules reach by %s from %s (the engine's own state differs from it)" % (
+                ev["best"], " ".join(mvs[-6:]), r), {"fen": fen, "script": gid, "announced": ev["best"], "legal": sorted(rl), "root": r, "moves": mvs}))
         f14 = " ".join(fen.split()[:4])
         reused = (gid, f14) in seen_pos
         seen_pos[(gid, f14)] = True
